@@ -284,6 +284,18 @@ theorem hdd_order_below_one (M : Int) (hM : M < 1) (ri : Nat → Nat → Nat) (c
   have : (0 : Int) < 2 ^ k := Int.pow_pos (by decide)
   omega
 
+/-- **hdd_idempotent**: deciding twice changes nothing — the output of an accepted `HDD` call is returned unchanged by any
+    further `HDD` call, whatever the random draws of either call are (`hdd_valid` + `hdd_id_on_valid`) -/
+theorem hdd_idempotent (M : Nat) (ri ri' : Nat → Nat → Nat) (ch ch' : Nat → List Nat → Nat) (hr : RandintOK ri) (hc : ChoiceOK ch)
+    (slots out : List Bool) (h : hdd (.seq slots) (M : Int) ri ch = some (.ok out)) :
+    hdd (.seq out) (M : Int) ri' ch' = some (.ok out) := by
+  have hp : pow2Test (M : Int) = true := by
+    by_contra hn
+    have := ((hdd_reject (M : Int) ri ch slots).1).mpr (Or.inl (fun hk => hn ((pow2Test_iff (M : Int)).mpr hk)))
+    rw [this] at h
+    cases h
+  exact hdd_id_on_valid M hp ri' ch' out (hdd_valid M ri ch hr hc slots out h)
+
 /-! ### soft decision (any linearly ordered sample type, e.g. ℝ) -/
 
 section
